@@ -419,7 +419,7 @@ def extra_c02(pid, tier, seed, workdir, known, write_replay):
 
 PROPS["C02"] = dict(
     lean_modules=["WgslVerif.Props.C02"],
-    theorems=["WgslVerif.C02_partial", "WgslVerif.C02_pipeline", "WgslVerif.C02_counterexample", "WgslVerif.bindingType_accepted", "WgslVerif.classArm_spec", "WgslVerif.viewDim_matches"],
+    theorems=["WgslVerif.C02_partial", "WgslVerif.C02_pipeline", "WgslVerif.C02_visible", "WgslVerif.C02_counterexample", "WgslVerif.bindingType_accepted", "WgslVerif.classArm_spec", "WgslVerif.viewDim_matches"],
     streams=lambda tier, seed: (
         [("fixtures",), ("provoke",), ("names",), ("pc", 2), ("family", "elseif", 70), ("gen", "textures", seed, 400), ("gen", "general", seed, 300), ("gen", "bindings", seed, 100)] if tier == "quick" else
         [("fixtures",), ("provoke",), ("names",), ("pc", 3), ("family", "elseif", 70), ("gen", "textures", seed, 8000), ("gen", "general", seed, 6000), ("gen", "bindings", seed, 2000), ("gen", "scale", seed, 200)]),
